@@ -79,6 +79,7 @@ type State struct {
 	scratch   bool
 	loopIn    map[string]Term
 	loopSnap  map[int]*State
+	headSnap  map[int]*State // the state at the head of the current iteration (after havoc and invariants)
 	tableKeys map[string][]Term
 	epochID   int // identifies the last whole-heap havoc on this path
 	declared  map[string]bool
@@ -140,6 +141,12 @@ func (s *State) clone() *State {
 		n.dbg = make(map[string]ssa.Value, len(s.dbg))
 		for k, v := range s.dbg {
 			n.dbg[k] = v
+		}
+	}
+	if s.headSnap != nil {
+		n.headSnap = make(map[int]*State, len(s.headSnap))
+		for k, v := range s.headSnap {
+			n.headSnap[k] = v
 		}
 	}
 	if s.loopSnap != nil {
